@@ -76,8 +76,8 @@ class KVBench:
         res = {"filter": fdict, "q": q, "in_model": mf is not None, "plan": plan}
         if mf is not None:
             mplan, mexec, spec = self.drv.batch([
-                {"op": "kv.plan", "filter": mf, "default_limit": default_limit},
-                {"op": "kv.exec", "filter": mf, "default_limit": default_limit},
+                {"op": "kv.plan", "filter": mf, "default_limit": default_limit, "max_limit": common.MAX_LIMIT},
+                {"op": "kv.exec", "filter": mf, "default_limit": default_limit, "max_limit": common.MAX_LIMIT},
                 {"op": "kv.spec", "filter": mf}])
             res["spec_strict"], res["spec_incl"], res["ts"] = spec["strict"], spec["incl"], spec["ts"]
         if plan is None:
